@@ -36,5 +36,10 @@ def main(argv):
     except build.BuildError as e:
         print("[verif] BUILD/INFRA ERROR (exit 2, not a violation):\n%s" % e, file=sys.stderr)
         return 2
+    except Exception:  # harness trouble is never a verdict about the code under test
+        import traceback
+        traceback.print_exc()
+        print("[verif] HARNESS ERROR (exit 2, not a violation)", file=sys.stderr)
+        return 2
     print("unknown command", cmd, file=sys.stderr)
     return 2
